@@ -109,6 +109,7 @@ type World struct {
 	faultOcc   map[string]int
 	siteLast   map[string]time.Duration
 	healing    bool
+	twinsDone  map[int]bool
 	FaultsFired map[int]int // node -> number of planned service faults that have fired there
 	Infra      []string // infrastructure trouble (exit 2), never a verdict
 	NodeLogs   [2][]string
